@@ -249,3 +249,14 @@ Theorem c03_removing_an_entity_leaves_every_other_live_id_live :
     LV k (WorldFrame.res_world (remove_entity w (ai, row))).
 Proof. exact remove_entity_spares_the_others. Qed.
 Print Assumptions c03_removing_an_entity_leaves_every_other_live_id_live.
+
+(* on a consistent world (StoreInv: part of the invariant of every reachable world), despawning t at its own location takes
+   t and nothing else *)
+Theorem c03_a_despawn_takes_exactly_its_target :
+  forall (w : world) (t : key) (ai row : N) (k : key), StoreInv w -> sm_get t (w_ents w) = Some (ai, row) ->
+    match remove_entity w (ai, row) with
+    | ROk _ w' => Dead (w_ents w') t /\ (t <> k -> sm_get k (w_ents w) <> None -> sm_get k (w_ents w') <> None)
+    | RFail _ _ => True
+    end.
+Proof. exact despawn_takes_exactly_its_target. Qed.
+Print Assumptions c03_a_despawn_takes_exactly_its_target.
